@@ -167,6 +167,10 @@ func zzC11(n int, viaReweight bool) {
 		ok = zzvOr(ok, zzvAnd(near, zzWithinBand(r, eff[j])))
 	}
 	zzvAssert("within-band-of-an-absorbed-value-at-the-right-rank", ok)
+	// the batch query gives the same answers as the single queries, also for fractional totals
+	both, berr := s.GetValuesAtQuantiles([]float64{q, 1})
+	r1, _ := s.GetValueAtQuantile(1)
+	zzvAssert("batch-equals-singles", berr == nil && len(both) == 2 && zzvSameBits(both[0], r) && zzvSameBits(both[1], r1))
 }
 
 func ZZ_C11_weighted_n1()   { zzC11(1, false) }
